@@ -225,4 +225,18 @@ macro "proj_tac" : tactic => `(tactic| first
 @[simp] theorem mwLoop_secStart (s : State) (t : Tid) (c : MW) (cit : Bool) : (mwLoop s t c cit).secStart = s.secStart := by proj_tac
 @[simp] theorem mwLoop_nwViol (s : State) (t : Tid) (c : MW) (cit : Bool) : (mwLoop s t c cit).nwViol = s.nwViol := by proj_tac
 
+@[simp] theorem ite_word (c : Prop) [Decidable c] (a b : State) : (if c then a else b).word = if c then a.word else b.word := apply_ite _ _ _ _
+@[simp] theorem ite_queue (c : Prop) [Decidable c] (a b : State) : (if c then a else b).queue = if c then a.queue else b.queue := apply_ite _ _ _ _
+@[simp] theorem ite_wr (c : Prop) [Decidable c] (a b : State) : (if c then a else b).wr = if c then a.wr else b.wr := apply_ite _ _ _ _
+@[simp] theorem ite_pc (c : Prop) [Decidable c] (a b : State) : (if c then a else b).pc = if c then a.pc else b.pc := apply_ite _ _ _ _
+@[simp] theorem ite_data (c : Prop) [Decidable c] (a b : State) : (if c then a else b).data = if c then a.data else b.data := apply_ite _ _ _ _
+@[simp] theorem ite_cargs (c : Prop) [Decidable c] (a b : State) : (if c then a else b).cargs = if c then a.cargs else b.cargs := apply_ite _ _ _ _
+@[simp] theorem ite_now (c : Prop) [Decidable c] (a b : State) : (if c then a else b).now = if c then a.now else b.now := apply_ite _ _ _ _
+@[simp] theorem ite_held (c : Prop) [Decidable c] (a b : State) : (if c then a else b).held = if c then a.held else b.held := apply_ite _ _ _ _
+@[simp] theorem ite_wOwner (c : Prop) [Decidable c] (a b : State) : (if c then a else b).wOwner = if c then a.wOwner else b.wOwner := apply_ite _ _ _ _
+@[simp] theorem ite_rOwners (c : Prop) [Decidable c] (a b : State) : (if c then a else b).rOwners = if c then a.rOwners else b.rOwners := apply_ite _ _ _ _
+@[simp] theorem ite_sp (c : Prop) [Decidable c] (a b : State) : (if c then a else b).sp = if c then a.sp else b.sp := apply_ite _ _ _ _
+@[simp] theorem ite_secStart (c : Prop) [Decidable c] (a b : State) : (if c then a else b).secStart = if c then a.secStart else b.secStart := apply_ite _ _ _ _
+@[simp] theorem ite_nwViol (c : Prop) [Decidable c] (a b : State) : (if c then a else b).nwViol = if c then a.nwViol else b.nwViol := apply_ite _ _ _ _
+
 end NsyncVerif.MuC
